@@ -61,14 +61,14 @@ def parseMailFrom (args0 : Bytes) : Option Bytes :=
     | p :: _ => some p
     | [] => some a
 
-/-- `parseRcptTo`: as above; ESMTP parameters after the address are dropped -/
+/-- `parseRcptTo`: as above; ESMTP parameters after the address are dropped; the domain is put in lower case -/
 def parseRcptTo (args0 : Bytes) : Option Bytes :=
   let args := trimSpace args0
   if !hasPrefix (toUpper args) toPrefix then none
   else
     let a := trimSpace (args.drop 3)
     let a := match fields a with | p :: _ => p | [] => a
-    some (trimGt (trimLt a))
+    some (lowerDomain (trimGt (trimLt a)))
 
 /-- `strings.SplitN(line, " ", 2)` -/
 def splitCmd : Bytes → Bytes × Bytes
